@@ -1183,3 +1183,42 @@ def diagnose(meta):
         if r is None:
             fails.append({"entry": m["name"], "file": m["file"], "line": m["line"], "why": msg})
     return fails
+
+
+# ---------------------------------------------------------------- CSG node teardown guard
+def teardown_guard(repo):
+    """CsgOpNode::Transform makes a node that SHARES the children vector (node->impl_ = impl_), so the iterative
+    destructor may empty a child's vector only if it is the last holder of the child node AND of that vector.
+    Returns (ok, description)."""
+    s = "".join(t[0] for t in lex(os.path.join(repo, "src/csg_tree.cpp")))
+    def body_of(sig):
+        i = s.find(sig)
+        if i < 0: return None
+        j = s.index("{", i); d = 0
+        for k in range(j, len(s)):
+            if s[k] == "{": d += 1
+            elif s[k] == "}":
+                d -= 1
+                if d == 0: return s[j:k + 1]
+        return None
+    tr = body_of("CsgOpNode::Transform(constmat3x4&m)const")
+    de = body_of("CsgOpNode::~CsgOpNode()")
+    if tr is None or de is None:
+        return False, "cannot find CsgOpNode::Transform / ~CsgOpNode in csg_tree.cpp"
+    shares = "node->impl_=impl_;" in tr
+    if not de.startswith("{if(impl_.UseCount()==1){"):
+        return False, "~CsgOpNode no longer starts with `if (impl_.UseCount() == 1)`: it would empty a children vector that a transformed node still shares"
+    n = 0
+    for m in re.finditer(r"handleChildren\(\*childImpl\)", de):
+        n += 1
+        i = de.rfind("if(", 0, m.start())
+        cond = de[i:de.index("{", i)] if i >= 0 else ""
+        if "child.use_count()==1" not in cond:
+            return False, "~CsgOpNode empties a child's children vector without checking child.use_count() == 1"
+        if shares and "child->impl_.UseCount()==1" not in cond:
+            return False, ("~CsgOpNode empties a child's children vector when child.use_count() == 1 without checking "
+                           "child->impl_.UseCount() == 1, but CsgOpNode::Transform shares that vector between nodes (node->impl_ = impl_): "
+                           "a transformed variant held by a live Manifold loses its children")
+    if n == 0 and "childImpl" in de:
+        return False, "~CsgOpNode: teardown of children not understood"
+    return True, "guard present (children vector shared by Transform: %s)" % shares
